@@ -204,8 +204,11 @@ def failing_edits(sim, rng):
                             {"obj": n, "attr": "fixed_nb_of_instances", "value": bad_fixed}]})
         if cls in S.SERVER_CLASSES:
             # a storage already used by another server: accepted by validation, refused by the storage while recomputing
-            others = sorted({spec["objs"][m]["attrs"]["storage"][1] for m in spec["order"]
-                             if spec["objs"][m]["cls"] in S.SERVER_CLASSES and m != n} - {o["attrs"]["storage"][1]})
+            # (read from the live links: while another failed storage link is installed the description still holds
+            # its previous value, and a storage that is free at the moment would make this edit a valid one)
+            others = sorted({w.objs[m].storage.name for m in spec["order"]
+                             if spec["objs"][m]["cls"] in S.SERVER_CLASSES and m != n and m in w.objs}
+                            - {o["attrs"]["storage"][1], obj.storage.name})
             if others:
                 out.append({"op": "set", "obj": n, "attr": "storage", "value": ["ref", rng.choice(others)], "fault": "F2",
                             "expect_site": "storage_shared_by_two_servers"})
